@@ -192,6 +192,14 @@ def expand(p, alphabet):
         q.lines.append("x%d = executable('x%d', files=[%s], pch=p%d)" % (i, i, f, i))
         q.values.append(Value('x%d' % i, EXE, 'x%d' % i, i))
         out.append(q)
+    if 'stepenvline' in alphabet:
+        # a step whose command is ONE shell line of two simple commands, with environment=
+        q = new('stepenvline')
+        q.files['d%d.in' % i] = 'data %d\n' % i
+        q.lines.append("gl%d = build_step('gl%d.txt', cmd='true && gen gl%d.txt -- ' + source_file('d%d.in').path.string(env.base_dirs), "
+                       "environment={'VVSTEP': 'sv %d'})" % (i, i, i, i, i))
+        q.values.append(Value('gl%d' % i, FILE, 'gl%d.txt' % i, i))
+        out.append(q)
     if 'exeopts' in alphabet:
         # per-target options that repeat words which (in some configurations of C06) are also given
         # globally or through the environment: every occurrence must reach the tool
@@ -256,7 +264,7 @@ def expand(p, alphabet):
     return out
 
 
-FULL = ['obj', 'exe', 'slib', 'shlib', 'vshlib', 'exepch', 'exeopts', 'step1', 'step2', 'stepao', 'step2ao', 'stepcmd', 'copy', 'alias',
+FULL = ['obj', 'exe', 'slib', 'shlib', 'vshlib', 'exepch', 'exeopts', 'stepenvline', 'step1', 'step2', 'stepao', 'step2ao', 'stepcmd', 'copy', 'alias',
         'command', 'test', 'testarg', 'default', 'install']
 
 
